@@ -97,6 +97,15 @@ type reloadRequest struct {
 	isSuspend       bool
 	requestedAt     time.Time
 	requestedAtMono uint64
+	// abortConnections is the abort marker (`dae reload -a` / `dae suspend -a`) of this very
+	// request: it is consumed when the request's signal is taken, accepted or not, so that a
+	// refused request cannot leave a marker behind for another request to pick up.
+	abortConnections bool
+}
+
+// takeAbortMarker consumes the abort marker file, if any.
+func takeAbortMarker() bool {
+	return os.Remove(AbortFile) == nil
 }
 
 type reloadRetirementControlPlane interface {
@@ -408,7 +417,7 @@ func (r *Runner) Run() (err error) {
 			resetReloadProxyRuntimeState()
 
 			// Load new config.
-			abortConnections := os.Remove(AbortFile) == nil
+			abortConnections := req.abortConnections
 			log.Warnln("[Reload] Load new config")
 			var newConf *config.Config
 			if req.isSuspend {
@@ -675,15 +684,17 @@ loop:
 				break loop
 			case syscall.SIGUSR2:
 				reloadManager.queueReloadRequest(log, reloadRequest{
-					isSuspend:       true,
-					requestedAt:     time.Now(),
-					requestedAtMono: monotonicNowNano(),
+					isSuspend:        true,
+					requestedAt:      time.Now(),
+					requestedAtMono:  monotonicNowNano(),
+					abortConnections: takeAbortMarker(),
 				})
 			case syscall.SIGUSR1:
 				reloadManager.queueReloadRequest(log, reloadRequest{
-					isSuspend:       false,
-					requestedAt:     time.Now(),
-					requestedAtMono: monotonicNowNano(),
+					isSuspend:        false,
+					requestedAt:      time.Now(),
+					requestedAtMono:  monotonicNowNano(),
+					abortConnections: takeAbortMarker(),
 				})
 			case syscall.SIGHUP:
 				// Ignore.
@@ -1004,6 +1015,8 @@ func waitReloadReadyOrSignal(
 				if log != nil {
 					log.Warnln("[Reload] Signal received while current reload is still becoming ready; ignoring it")
 				}
+				// The refused request's abort marker goes with it.
+				_ = takeAbortMarker()
 				// Answer the requester like a refusal in any other stage does: without this the
 				// signal is dropped silently and the requester later reads the in-progress
 				// reload's result as its own.
